@@ -22,33 +22,62 @@ def ref_expr(j, form):
     return {"bare": "n%d" % j, "modattr": "selfmod.n%d" % j, "alias": "n%d_alias" % j, "wrapper": "n%d_w" % j}[form]
 
 
-def render(n, kinds, edges, forms):
-    out = ["import sys", "import functools", "import twosigma.memento as m", "selfmod = sys.modules[__name__]", "",
-           "def passthru(f):", "    @functools.wraps(f)", "    def w(*a, **k):", "        return f(*a, **k)", "    return w", ""]
-    for i in range(n):
-        if kinds[i] == "M":
-            out.append("@m.memento_function")
-        elif kinds[i] == "E":
-            out.append("@m.memento_function(version='1')")
-        out.append("def n%d(x=1, hid=None, via=None, fnarg=None):" % i)
-        out.append("    sys.audit('vf.body', 'n%d', x)" % i)
-        succ = [j for (a, j) in edges if a == i]
-        if not succ:
-            out.append("    pass")
-        for j in succ:
-            e = ref_expr(j, forms[(i, j)])
-            out.append("    if via == 'n%d':" % j)
-            out.append("        return ['n%d', %s(1, hid=hid, fnarg=fnarg)]" % (i, e))
-        out.append("    if via is None and hid is not None:")
-        out.append("        return ['n%d', globals()[hid](0)]" % i)
-        out.append("    if via is None and fnarg is not None:")
-        out.append("        return ['n%d', fnarg(0)]" % i)
-        out.append("    return ['n%d']" % i)
-        out.append("")
-    for i in range(n):
-        out.append("n%d_alias = n%d" % (i, i))
-        out.append("n%d_w = passthru(n%d)" % (i, i))
-    return "\n".join(out) + "\n"
+MODNAME = {"a": "vfg.a", "i": "vfg", "b": "vfg.b"}
+# how module X refers to module Y
+MODREF = {("a", "i"): "pkg", ("a", "b"): "b", ("i", "a"): "a", ("i", "b"): "b", ("b", "a"): "a", ("b", "i"): "pkg"}
+
+
+def render(n, kinds, edges, forms, layout=None):
+    """{file name: text}. layout[i] in {"a", "i", "b"}: node i lives in vfg/a.py, in the package's __init__.py or in
+    the sibling module vfg/b.py (default: everything in a.py)."""
+    layout = layout or "a" * n
+    files = {}
+    for mod in ("a", "i", "b"):
+        nodes = [i for i in range(n) if layout[i] == mod]
+        if not nodes and mod != "a" and mod != "i":
+            continue
+        out = ["import sys", "import functools", "import importlib", "import twosigma.memento as m", "selfmod = sys.modules[__name__]"]
+        if mod == "a":
+            out.append("import vfg as pkg")
+            if "b" in layout:
+                out.append("from . import b")
+        if mod == "b":
+            out += ["import vfg as pkg", "from . import a"]
+        out += ["", "def passthru(f):", "    @functools.wraps(f)", "    def w(*a, **k):", "        return f(*a, **k)", "    return w", ""]
+        for i in nodes:
+            if kinds[i] == "M":
+                out.append("@m.memento_function")
+            elif kinds[i] == "E":
+                out.append("@m.memento_function(version='1')")
+            out.append("def n%d(x=1, hid=None, via=None, fnarg=None):" % i)
+            out.append("    sys.audit('vf.body', 'n%d', x)" % i)
+            succ = [j for (a_, j) in edges if a_ == i]
+            if not succ:
+                out.append("    pass")
+            for j in succ:
+                if layout[j] == mod:
+                    e = ref_expr(j, forms[(i, j)])
+                else:
+                    e = "%s.n%d" % (MODREF[(mod, layout[j])], j)
+                out.append("    if via == 'n%d':" % j)
+                out.append("        return ['n%d', %s(1, hid=hid, fnarg=fnarg)]" % (i, e))
+            out.append("    if via is None and hid is not None:")
+            out.append("        return ['n%d', getattr(importlib.import_module(hid[0]), hid[1])(0)]" % i)
+            out.append("    if via is None and fnarg is not None:")
+            out.append("        return ['n%d', fnarg(0)]" % i)
+            out.append("    return ['n%d']" % i)
+            out.append("")
+        for i in nodes:
+            out.append("n%d_alias = n%d" % (i, i))
+            out.append("n%d_w = passthru(n%d)" % (i, i))
+        if mod == "i" and layout.strip("i"):
+            out.append("from . import a  # noqa (after the definitions: a imports this package)")
+            if "b" in layout:
+                out.append("from . import b  # noqa")
+        if mod == "i" and not nodes:
+            out = []
+        files["__init__.py" if mod == "i" else mod + ".py"] = "\n".join(out) + "\n"
+    return files
 
 
 def reach(n, edges, src, through=None):
@@ -80,7 +109,7 @@ def expected(n, kinds, edges):
     return exp
 
 
-def _child(root, store, n, kinds, edges):
+def _child(root, store, n, kinds, edges, layout=None):
     import importlib
     import sys
 
@@ -89,8 +118,12 @@ def _child(root, store, n, kinds, edges):
     audit.install()
     farm.set_env(store)
     sys.path.insert(0, root)
-    a = importlib.import_module("vfg.a")
+    layout = layout or "a" * n
+    importlib.import_module("vfg.a")
     from twosigma.memento.exception import UndeclaredDependencyError  # noqa
+
+    def node(i):
+        return getattr(importlib.import_module(MODNAME[layout[i]]), "n%d" % i)
 
     def idx(f):
         return int(f.qualified_name_without_version.split(":n")[-1])
@@ -98,7 +131,7 @@ def _child(root, store, n, kinds, edges):
     obs = {}
     mem = [i for i in range(n) if kinds[i] != "P"]
     for u in mem:
-        f = getattr(a, "n%d" % u)
+        f = node(u)
         dg = f.dependencies()
         trans = sorted(idx(x) for x in dg.transitive_memento_fn_dependencies())
         direct = sorted(idx(x) for x in dg.direct_memento_fn_dependencies())
@@ -124,7 +157,7 @@ def _child(root, store, n, kinds, edges):
                 calls.append((u, w, v, "hid", "force_local"))
     runtime = []
     for (u, w, v, how, modifier) in calls:
-        f = getattr(a, "n%d" % u)
+        f = node(u)
         if modifier == "partial":
             f = f.partial()
         elif modifier == "force_local":
@@ -137,9 +170,9 @@ def _child(root, store, n, kinds, edges):
         if w is not None:
             kw["via"] = "n%d" % w
         if how == "hid":
-            kw["hid"] = "n%d" % v
+            kw["hid"] = [MODNAME[layout[v]], "n%d" % v]
         else:
-            kw["fnarg"] = getattr(a, "n%d" % v)
+            kw["fnarg"] = node(v)
         try:
             # a distinct argument per way of invoking: every call is computed, none replayed
             f(10 + [None, "partial", "force_local", "ctx", "ignore"].index(modifier), **kw)
@@ -153,30 +186,31 @@ def _child(root, store, n, kinds, edges):
 
 
 def graph_case(args):
-    n, kinds, edges, forms = args
+    n, kinds, edges, forms = args[:4]
+    layout = args[4] if len(args) > 4 else None
     forms = dict(forms)
     top = scratch_dir("c14")
     out = {"evaluations": 1, "states": 1, "transitions": 0, "traces": 1, "violations": [], "outcomes": []}
     try:
         d = os.path.join(top, "vfg")
         os.makedirs(d)
-        open(os.path.join(d, "__init__.py"), "w").close()
-        with open(os.path.join(d, "a.py"), "w") as f:
-            f.write(render(n, kinds, edges, forms))
+        for fname, text in render(n, kinds, edges, forms, layout).items():
+            with open(os.path.join(d, fname), "w") as f:
+                f.write(text)
         try:
-            res = farm.fork_call(_child, top, os.path.join(top, "store"), n, kinds, edges)
+            res = farm.fork_call(_child, top, os.path.join(top, "store"), n, kinds, edges, layout)
         except farm.ChildFailed as e:
             out["violations"].append(("query-raised|%s" % str(e).splitlines()[0][:60],
                                       "querying the dependencies raised: %s" % str(e)[:600],
                                       {"n": n, "kinds": kinds, "edges": edges, "forms": sorted(forms.items())}))
             return out
         exp = expected(n, kinds, edges)
-        art = {"n": n, "kinds": kinds, "edges": edges, "forms": sorted(forms.items())}
-        desc = "graph n=%d kinds=%s edges=%s forms=%s" % (n, kinds, edges, sorted(forms.items()))
+        art = {"n": n, "kinds": kinds, "edges": edges, "forms": sorted(forms.items()), "layout": layout}
+        desc = "graph n=%d kinds=%s edges=%s forms=%s%s" % (n, kinds, edges, sorted(forms.items()), " layout=%s" % layout if layout else "")
 
         def shape(u, wrong, kindname):
             cyc = u in reach(n, edges, u)
-            return "%s|caller=%s|%s%s" % (kindname, kinds[u], wrong, "|cycle-through-self" if cyc else "")
+            return "%s|caller=%s|%s%s%s" % (kindname, kinds[u], wrong, "|cycle-through-self" if cyc else "", "|layout" if layout else "")
 
         for u, (closure, direct, links) in exp.items():
             o = res["static"][u]
@@ -209,6 +243,8 @@ def graph_case(args):
                                                                  "|nested" if w is not None else "")
                 if v == u and w is not None:
                     sig += "|callee-on-stack"
+                if layout:
+                    sig += "|layout"
                 out["violations"].append((sig, "n%d%s %s-calling n%d%s: got %s, expected %s\n%s"
                                           % (u, " (via static call to n%d)" % w if w is not None else "", "hidden" if how == "hid" else "argument",
                                              v, " invoked through %s" % modifier if modifier else "", got, want, desc), art))
@@ -253,7 +289,8 @@ def run(ctx):
                 "plain} with at least one auto memento node (N<=3 exhaustive; thorough: N=4 up to node relabelling), edge "
                 "reference forms by covering rotation over {bare, module.attr, alias, wrapper} (all assignments for N=2); per "
                 "graph: transitive / direct / graph links of every memento node vs reachability, and every hidden or "
-                "argument-passed call u=>v and u->w=>v through every modifier vs the closure. distinct = graphs.")
+                "argument-passed call u=>v and u->w=>v through every modifier vs the closure; graphs with N in {2,3} additionally with the "
+                "nodes spread over a.py, the package __init__.py and a sibling module. distinct = graphs.")
     ctx.assumptions += ["a function is never its own dependency (self entries / self links are excluded)",
                         "a caller with an explicit version is exempt from the undeclared-dependency check (documented)"]
     tasks = []
@@ -266,6 +303,25 @@ def run(ctx):
                 for rot in range(4 if (n == 3 and thorough) else 1):
                     forms = tuple(((i, j), FORMS[(i + 2 * j + rot) % 4]) for (i, j) in edges)
                     tasks.append((n, kinds, edges, forms))
+    # the same graphs spread over the modules of one package: plain helpers in the package's __init__.py or in a sibling
+    # module, memento functions other than the first in the sibling module (cross-module references are module.attr)
+    lay = []
+    for (n, kinds, edges, forms) in list(tasks):
+        if n < 2 or n > 3 or not edges:
+            continue
+        if n == 3 and not thorough and len(edges) > 3:
+            continue
+        outs = set()
+        if "P" in kinds:
+            outs.add("".join("i" if k == "P" else "a" for k in kinds))
+            outs.add("".join("b" if k == "P" else "a" for k in kinds))
+        outs.add("a" + "b" * (n - 1))
+        outs.add("i" + "a" * (n - 1))
+        for layout in sorted(outs):
+            if n == 2 and forms and any(f != "bare" for _, f in forms):
+                continue  # forms only matter inside one module
+            lay.append((n, kinds, edges, forms, layout))
+    tasks += lay
     a = graph_case(tasks[len(tasks) // 2])
     b = graph_case(tasks[len(tasks) // 2])
     ctx.selfcheck("one graph gives identical observations twice", a["violations"] == b["violations"] and a["transitions"] == b["transitions"])
@@ -277,13 +333,14 @@ def run(ctx):
     ctx.merge(res)
     ctx.extra["graphs"] = len(tasks)
     t = tasks[len(tasks) // 2]
-    ctx.sample({"n": t[0], "kinds": t[1], "edges": t[2], "forms": t[3], "text": render(t[0], t[1], t[2], dict(t[3]))[:1500]})
+    ctx.extra["graphs_with_module_layouts"] = len(lay)
+    ctx.sample({"n": t[0], "kinds": t[1], "edges": t[2], "forms": t[3], "text": render(t[0], t[1], t[2], dict(t[3]))["a.py"][:1500]})
 
 
 def replay(ctx, art):
     a = art["artefact"]
     forms = tuple((tuple(k), v) for k, v in a["forms"])
-    r = graph_case((a["n"], tuple(a["kinds"]), tuple(tuple(e) for e in a["edges"]), forms))
+    r = graph_case((a["n"], tuple(a["kinds"]), tuple(tuple(e) for e in a["edges"]), forms) + ((a["layout"],) if a.get("layout") else ()))
     for v in r["violations"]:
         print(v[0], "\n", v[1])
     print("REPLAY property=C14 result=%s" % bool(r["violations"]))
